@@ -18,14 +18,19 @@ CHAIN_RULE = ("chain suite: histories of 14+ operations on a real, fully wired n
               "1-2 other real nodes and scripted peers: submissions (wallet-style and invalid in exactly one respect), production ticks "
               "(aligned, repeated, skipped, unaligned), sync rounds against honest, mutated (one rule broken at one height) and failing "
               "neighbors, registry refreshes; after every operation the whole observable state (block hashes, Utxos per address, "
-              "registered and pending-removal addresses, pool) is compared with the extracted model. A history is distinct by its "
+              "registered and pending-removal addresses, pool) is compared with the extracted model. The node reads its protocol settings "
+              "through the repository's own decoder (a settings document is built from the intended values; interval and timeout differ), "
+              "spendable outputs are observed through the node's own utxos handler, honest neighbors answer through their own blocks handler, "
+              "signature and address oracles are computed with crypto/ecdsa and go-ethereum directly. Generated situations include signatures "
+              "of the same key replayed on another reference, leading zero-valued outputs, order-dependent pooled pairs (swap mode) and pooled "
+              "transactions that an adopted block makes unproducible (yield race). A history is distinct by its "
               "sequence of (operation kind, outcome).")
 
 CHECKS = {
     "C20": {
         "suites": [{"suite": "clock", "n_quick": 240, "n_thorough": 4000, "shards": 8}],
         "monitor_props": ["C20"],
-        "rule": "clock suite: Pulse cases (reading on / just before / just after / inside a period) and Start..Stop runs of the real Engine with scripted readings (stalls, exact half-way points, readings just before a boundary, a clock that does not advance) over occurrence/skip configurations; a case is distinct by (kind, configuration, reading pattern)",
+        "rule": "clock suite: Pulse cases (reading on / just before / just after / inside a period) and Start..Stop runs of the real Engine with scripted readings (stalls, exact half-way points, readings just before a boundary, a clock that does not advance) over occurrence/skip configurations; some pulses take their period from ValidationTimer() of settings that went through the repository's decoder (interval 2 s, timeout 3 s); a case is distinct by (kind, configuration, reading pattern)",
         "trusted_base": ["time.Ticker and goroutine scheduling (the model takes the served clock readings as its input)"],
         "assumptions": ["timestamps stay within int64 nanoseconds (years 1678-2262), as time.Time.UnixNano requires",
                         "Stop is observed from the engine's own goroutine; the unsynchronised flag itself is a C16 item"],
@@ -44,7 +49,7 @@ CHECKS = {
         "suites": chain_suites(6, quick=64, extra=[{"suite": "forks", "n_quick": 240, "n_thorough": 8000, "shards": 8, "shards_thorough": 16}]),
         "monitor_props": ["C06"],
         "mismatch_kinds": ["update"],
-        "rule": CHAIN_RULE + " The forks suite adds rounds with 1-8 neighbors serving, from four real producers that share a prefix of 1-4 blocks with the host, chains equal to, shorter than, longer than and diverging from the host's (several neighbors on one branch, so the branch-majority and longest filters both remove candidates), plus mutated and failing neighbors. For C06 the compared projection of a sync round is: kept/replaced, the set of neighbors whose answer passed verification, and the adopted chain (the model is run once per possible tie-break and must match for one of them).",
+        "rule": CHAIN_RULE + " The forks suite adds rounds with 1-8 neighbors serving, from four real producers that share a prefix of 1-4 blocks with the host, chains equal to, shorter than, longer than and diverging from the host's (several neighbors on one branch, so the branch-majority and longest filters both remove candidates), plus mutated and failing neighbors. For C06 the compared projection of a sync round is: kept/replaced, the set of neighbors whose answer passed verification, and the adopted chain (the model is run once per possible tie-break and must match for one of them). Branch blocks carry wallet transactions; an honest neighbor's answer may be set aside as a fork or as too short, never for its content; the isolation scenario (chains of 4-13 and 34-40 blocks; an in-sync or one-ahead neighbor, then a competing tip or the host's tip with a doubled transaction) requires the held chain to be, block for block, the old chain or what an accepted neighbor serves; some rounds are stamped by a real Engine with a neighbor one tick ahead.",
         "trusted_base": CHAIN_TB,
         "assumptions": ["ties in waiting time resolve by Go's map iteration order: the model's pref argument, universally quantified in the theorems",
                         "no neighbor target is the literal string \"host\" (real targets are ip:port)"],
@@ -62,7 +67,7 @@ CHECKS = {
                    # what a wallet sees: balances of income-only holdings through the access node
                    {"suite": "views", "n_quick": 120, "n_thorough": 3000, "shards": 4, "shards_thorough": 16, "seed_off": 9}],
         "monitor_props": ["C09"],
-        "rule": "decay suite: Utxo.Value at lattice points (y in 0, 1, base, limit-1, limit, limit+1, 2*limit, powers of two up to 2^53, random) x (1 ns, h/2, h, h+1, 20h, random) x six settings; each point is enclosed by Coq's interval tactic (120 bits) on the real model G/F and Go's uint64 must lie within the property's slack of the enclosure; distinct by (yielding, y kind, x kind, setting)",
+        "rule": "decay suite: Utxo.Value at lattice points (y in 0, 1, base, limit-1, limit, limit+1, 2*limit, powers of two up to 2^53, random) x (1 ns, h/2, h, h+1, 20h, random) x six settings; each point is enclosed by Coq's interval tactic (120 bits) on the real model G/F and Go's uint64 must lie within the property's slack of the enclosure; the half-life reaches Utxo.Value through the real decoder of the protocol settings (halfLifeInDays); the views suite shows balances of income-only holdings through the access node; distinct by (yielding, y kind, x kind, setting)",
         "trusted_base": ["Coq Reals axioms (ClassicalDedekindReals.sig_not_dec, sig_forall_dec, FunctionalExtensionality.functional_extensionality_dep, Classical_Prop.classic); the interval tactic additionally relies on the primitive integer/float axioms of the standard library (Uint63, PrimFloat, FloatAxioms) for the numeric Example and for the per-point enclosures",
                          "binary64 evaluation through Go's math.Exp/Log/Pow is not modelled: it is validated pointwise against the enclosures, not proved"],
         "assumptions": ["integer settings with 1 <= base < limit (then 0 < k1; for real-valued settings k1 > 0 needs (2B)^2 < L^3, see C09_k1_pos_real_refuted)",
@@ -71,7 +76,7 @@ CHECKS = {
     "C17": {
         "suites": [{"suite": "net", "n_quick": 400, "n_thorough": 20000, "shards": 8, "shards_thorough": 16}],
         "monitor_props": ["C17"],
-        "rule": "net suite: the real Neighborhood with a scripted SenderCreator over sequences of AddTargets (valid, malformed, foreign-network, self, duplicates), Incentive and Synchronize rounds with maximum sizes 0..8, seeds, unreachable subsets and (one case in six) DNS names that resolve to another peer or to the host itself; every round's selected set must be an admissible result of the model's selection (membership, since the cut bucket is shuffled) and every fan-out list must equal the model's; distinct by (max, seeds, aliasing, operation pattern)",
+        "rule": "net suite: the real Neighborhood with a scripted SenderCreator over sequences of AddTargets (valid, malformed, foreign-network, self, duplicates), Incentive and Synchronize rounds with maximum sizes 0..8, seeds, unreachable subsets and (one case in six) DNS names that resolve to another peer or to the host itself; every round's selected set must be an admissible result of the model's selection (membership, since the cut bucket is shuffled) and every fan-out list must equal the model's; a fifth of the histories have an IPv6 host; scored peers are announced again; distinct by (max, seeds, aliasing, operation pattern)",
         "trusted_base": ["net.SplitHostPort and DNS/dial (SenderCreator) are oracles: tables recorded from the run", "math/rand shuffle of the cut bucket: the model's perm input; the check is membership in the admissible set"],
         "assumptions": ["maximum outbound count >= 0 (a negative configured maximum panics at neighborhood.go:123)",
                         "distinct / never-self are about sender targets and hold when target resolution is injective and does not map to the host (C17_alias_refuted shows the aliasing case: known finding)"],
@@ -79,14 +84,14 @@ CHECKS = {
     "C18": {
         "suites": [{"suite": "wallet", "n_quick": 240, "n_thorough": 6000, "shards": 8, "shards_thorough": 16}],
         "monitor_props": ["C18"],
-        "rule": "wallet suite: the real InfoController over httptest, its Sender backed by a real validator whose wallet holds 1..300 outputs (equal values, zero-valued, yielding or not); amounts 0, balance-fee, just above, one output exactly, beyond, random; both consolidation modes; clock anywhere in the slot; the answer is compared with the model's tx_info and the transaction built from it is submitted to the real pool and a block is produced; distinct by (amount kind, mode, holdings, status)",
+        "rule": "wallet suite: the real InfoController over httptest, its Sender backed by a real validator whose wallet holds 1..300 outputs (equal values, zero-valued, yielding or not); amounts 0, balance-fee, just above, one output exactly, beyond, random; both consolidation modes; clock anywhere in the slot; the answer is compared with the model's tx_info and the transaction built from it is submitted to the real pool and a block is produced; up to three payments in a row on one validator (a third of them to the wallet itself), clock readings on the first and last instant of a slot, the validator reached through its real handlers, the set-up payment itself checked; distinct by (amount kind, mode, holdings, status)",
         "trusted_base": ["Utxo.Value (binary64) is an oracle: the holdings' values at the next block time are recorded from the run", "net/http, gin and strconv.Atoi are outside the model"],
         "assumptions": ["no uint64 wrap: total holdings < 2^64 and amount + fee < 2^64 (a negative value= parameter wraps: noted in DESIGN.md)"],
     },
     "C19": {
         "suites": [{"suite": "views", "n_quick": 240, "n_thorough": 6000, "shards": 8, "shards_thorough": 16}],
         "monitor_props": ["C19"],
-        "rule": "views suite: the real AmountController and ProgressController over httptest, their Sender backed by a live validator walked through a transaction's life (unknown, pooled, in the tip block, confirmed, spent again) or failing at one chosen step (utxos, first-block timestamp, blocks, pool, undecodable body); distinct by (stage, injected fault, outcome)",
+        "rule": "views suite: the real AmountController and ProgressController over httptest, their Sender backed by a live validator walked through a transaction's life (unknown, pooled, in the tip block, confirmed, spent again) or failing at one chosen step (utxos, first-block timestamp, blocks, pool, undecodable body); the validator answers through its real handlers and, in some cases, really re-syncs onto an older chain between two requests; income-only holdings and balances asked for much later; distinct by (stage, injected fault, outcome)",
         "trusted_base": ["the final float64 division of the balance and JSON formatting are recomputed by the harness with math/big, not modelled"],
         "assumptions": ["the balance is the uint64 (wrapping) sum; equal to the exact sum below 2^64"],
     },
@@ -111,7 +116,7 @@ CHECKS = {
         "suites": chain_suites(4, extra=[{"suite": "forks", "n_quick": 96, "n_thorough": 3000, "shards": 8, "shards_thorough": 16, "seed_off": 4}]),
         "monitor_props": ["C04"],
         "mismatch_kinds": ["validate", "update"],
-        "rule": CHAIN_RULE + " For C04 the mutated neighbors break one rule at one height: timestamp shifted, tail in the future, two rewards, no reward, transaction dated after its block or before the previous one, broken link, truncated, first block dropped; production ticks are aligned, repeated, skipped and (for the correspondence only) unaligned.",
+        "rule": CHAIN_RULE + " For C04 the mutated neighbors break one rule at one height: timestamp shifted, tail in the future, two rewards, no reward, transaction dated after its block or before the previous one, broken link, truncated, first block dropped; production ticks are aligned, repeated, skipped and (for the correspondence only) unaligned or dated before the tip. The forks suite adds multi-neighbor rounds (isolation scenario) and rounds stamped by a real verification Engine while a neighbor already serves the next tick's block: the held tip is never dated after the node's clock.",
         "trusted_base": CHAIN_TB,
         "assumptions": ["minimal fee >= 1, validation interval >= 0, SHA-256 collision-free on the blocks involved (blocks whose hash equals the host's block are not re-verified)",
                         "no tip is dated 0 (the code uses timestamp 0 as 'empty chain': C04_chain_ok_refuted shows the edge; real timestamps are Unix nanoseconds)",
@@ -131,7 +136,7 @@ CHECKS = {
                                           {"suite": "place", "n_quick": 42, "n_thorough": 840, "shards": 4, "shards_thorough": 16, "eval": "true", "seed_off": 12}]),
         "monitor_props": ["C12"],
         "mismatch_kinds": ["validate", "update", "regsync"],
-        "rule": CHAIN_RULE + " For C12 every block hash observed at a height is re-observed after every later operation (production, registry refresh, candidate verification that is later rejected, queries) as long as the chain below it was not replaced by a sync round; registry refreshes mark any subset of addresses invalid so that blocks carry 0, 1, 2 or more pending removals.",
+        "rule": CHAIN_RULE + " For C12 every block hash observed at a height is re-observed after every later operation (production, registry refresh, candidate verification that is later rejected, queries) as long as the chain below it was not replaced by a sync round; registry refreshes mark any subset of addresses invalid so that blocks carry 0, 1, 2 or more pending removals. The forks suite (isolation scenario over long chains) and the place suite (one operation inside another) keep the served chain hash-linked.",
         "trusted_base": CHAIN_TB + ["Go slice aliasing is not modelled: the model's values are immutable, so an in-place edit of a chained block shows up as a correspondence difference on the block hash (that is how the pinned tree's defect D2 appears)"],
         "assumptions": ["'identical content and hash' is definitional for immutable model values; the theorem content is which heights may change and that the chain is hash-linked in every reachable state"],
     },
@@ -172,14 +177,14 @@ CHECKS = {
         "rule": "race suite (binary built with -race): on one real node, two goroutines submit transactions (including one transaction three times), one issues queries (pool, blocks, outputs, timestamps, registration), one produces blocks, one runs sync rounds against a second real node that produces competing blocks, one refreshes the registry, for 40-80 ms; at quiescence the chain monitors (C01-C04, C07, C10) run and admitted transactions are counted in chain + pool; any race-detector report is a violation. The place suite puts one operation inside another deterministically, by wrapping the injected collaborators: seven placements: a submission while a production tick is at its AddBlock call (the admitted transaction must be found exactly once in chain + pool); a production tick, and two production ticks, while a sync round is between verification and commit; a sync round while AddBlock consults the registry; a sync round after a production tick has read the tip and before it builds its block; the same with a pooled transaction that the adopted chain has already confirmed, so that the tick rejects it and is then refused by AddBlock ; a freshly started node adopting an older chain with the same tip time inside its tick (each time the quiescent state must satisfy C01-C07 and the pool must hold submitted transactions only, none twice, no reward). The sweep suite runs two operations of one real node (production tick, submission, sync round, registry refresh; eight ordered pairs) in two goroutines under a scheduler that decides at every collaborator call which of the two goes on (schedules of up to five segments; a thread waiting for a lock held by the paused one is detected and the other let on), in four worlds (a neighbor that extends the host's chain, a competing tip of equal height, a freshly started node facing an older chain, a deeper and longer fork) with pooled transactions that the neighbor's chain already confirms or that spend the host's own tip; the quiescent state is judged by the monitors, and every run whose switches fall on the call boundaries of the Gallina machine model/Interleave.v (V1..V4, A1..A4, U1..U3) is replayed on that machine: results of the operations and the final state (digest) must agree. The static part regenerates the access table and lock-order edges from the source on every run; distinct by (blocks, submissions, pool size)",
         "trusted_base": ["tools/genlockset (syntactic go/ast translator; rules in DESIGN.md 3.13: receiver-field accesses, locks held by statement order, defer-unlock holds to the end, inlining of calls on the receiver and on collaborator fields, goroutines run without the caller's locks, element stores through a local alias count as writes)",
                          "the Go memory model is not formalised: the theorem is a lock discipline over an abstract reader/writer mutex semantics; the race detector and stress runs are search tools",
-                         "the scheduler of the sweep suite (harness/suite_sweep.go): decorators around the injected interfaces, goroutine identification through runtime.Stack, a 25 ms timeout to detect a thread waiting for a lock (a call that waited is placed where it returned)"],
+                         "the scheduler of the sweep suite (harness/suite_sweep.go): decorators around the injected interfaces, goroutine identification through runtime.Stack, an 80 ms timeout to detect a thread waiting for a lock (a call that waited is placed where it returned)"],
         "assumptions": ["entry points = exported methods of Blockchain, TransactionsPool, UtxosRegistry, AddressesRegistry, Neighborhood, Engine; each engine-driven method does not overlap with itself",
                         "operation-level interleavings are proved linearisable at the granularity of collaborator calls (model/Interleave.v, C16_interleave.v) for schedules in which no sync round changes the chain state while a tick or a submission is in flight; outside that condition the statement is refuted (known finding stale-tick-view); schedules finer than the machine (a call taking effect inside AddBlock or inside the commit) and registry refreshes are judged by the monitors only: partial"],
     },
     "C15": {
         "suites": [{"suite": "wire", "n_quick": 96, "n_thorough": 2400, "shards": 8, "shards_thorough": 16}],
         "monitor_props": ["C15"],
-        "rule": "wire suite: (a) every block of real chains (real transactions, registry removals) served by a node is compared byte for byte with the model's printer and hash for hash / id for id with the model's SHA-256; (b) JSON text is fed to the real decoders and to the model's decoders (through a JSON reader in the OCaml glue): synthetic transactions with empty/absent lists, extreme integers, non-ASCII / HTML-special / control characters in addresses, upper-case hex, leading-zero signatures, unknown, reordered, case-varied and duplicated keys, wrong ids; block lists mutated at every schema position with every fault kind; accept/reject and the re-encoded bytes must agree; (c) monitors: decode/encode stability, same id and hash after a round trip, 'has a reward' iff no input; (d) every eighth case serves the node through the real Host over loopback TCP (golang-p2p) and asks all seven endpoints through the real client. The endpoint binding table is regenerated from source (tools/genendpoints) and checked by C15_endpoints. distinct by JSON text",
+        "rule": "wire suite: (a) every block of real chains (real transactions, registry removals) served by a node is compared byte for byte with the model's printer and hash for hash / id for id with the model's SHA-256; (b) JSON text is fed to the real decoders and to the model's decoders (through a JSON reader in the OCaml glue): synthetic transactions with empty/absent lists, extreme integers, non-ASCII / HTML-special / control characters in addresses, upper-case hex, leading-zero signatures, unknown, reordered, case-varied and duplicated keys, wrong ids; block lists mutated at every schema position with every fault kind; accept/reject and the re-encoded bytes must agree; (c) monitors: decode/encode stability, same id and hash after a round trip, 'has a reward' iff no input; (d) every eighth case serves the node through the real Host over loopback TCP (golang-p2p) and asks all seven endpoints through the real client. The endpoint binding table is regenerated from source (tools/genendpoints) and checked by C15_endpoints. One blocks answer is held while the next requests are answered: its bytes must not change. distinct by JSON text",
         "trusted_base": ["bytes <-> JSON tree: Go's lexer on one side, ocaml/jsonp.ml on the other (tested against each other, not proved)", "crypto.UnmarshalPubkey (on-curve test) is an oracle", "golang-p2p framing (gob, RSA/AES handshake) is exercised end to end, not modelled",
                          "tools/genendpoints (syntactic go/ast translator of node.go, host.go, neighbor.go)"],
         "assumptions": ["'different fields => different ids' is modulo a collision of SHA-256 (C15_id_binds states the disjunction)", "strings are valid UTF-8 (Go's decoder guarantees it for decoded values)"],
@@ -188,7 +193,7 @@ CHECKS = {
         "suites": [{"suite": "accept", "n_quick": 160, "n_thorough": 4000, "shards": 8, "shards_thorough": 16}],
         "monitor_props": ["C05"],
         "mismatch_kinds": ["update", "validate", "admit", "regsync"],
-        "rule": "accept suite: a real producer whose pool holds anything an honest pool may hold (spends of confirmed, last-block and same-pool outputs, boundary fees and dates, yielding outputs to registered, new and just-removed addresses) produces a block; three real peers that hold the same chain receive it as an extension of their tip, as a competitor to their own tip produced on the same tick, and in a full re-sync from an unrelated short chain; the monitor requires the producer's answer to pass verification in each context; the peers' whole lives are recorded and compared with the model; distinct by (context, spend kind, outcome, pool contents)",
+        "rule": "accept suite: a real producer whose pool holds anything an honest pool may hold (spends of confirmed, last-block and same-pool outputs, boundary fees and dates, yielding outputs to registered, new and just-removed addresses) produces a block; three real peers that hold the same chain receive it as an extension of their tip, as a competitor to their own tip produced on the same tick, and in a full re-sync from an unrelated short chain; the monitor requires the producer's answer to pass verification in each context; the peers' whole lives are recorded and compared with the model; one case in sixteen takes the production tick from a real Engine whose period is ValidationTimer() of the decoded settings (interval 2 s, timeout 1 s); distinct by (context, spend kind, outcome, pool contents)",
         "trusted_base": CHAIN_TB,
         "assumptions": ["'accepted' = the candidate passes verification (whether it is then selected is C06's tie-break)",
                         "two situations are known findings: a block spending an output of the immediately preceding block (rejected as an extension and in a re-sync) and a block in which a transaction spends an output of an earlier transaction of the same block (rejected everywhere)"],
@@ -200,7 +205,7 @@ CHECKS = {
                    # peer-supplied targets (announced, or named as broadcaster of a transaction) reach the refresh loop of the neighborhood
                    {"suite": "net", "n_quick": 200, "n_thorough": 8000, "shards": 4, "shards_thorough": 16, "seed_off": 14}],
         "monitor_props": ["C14"],
-        "rule": "crash suite: a valid transaction request, a valid chain (as a neighbor's sync answer) and a validator's utxo answer are mutated at every schema position with 14 fault kinds (null, absent, empty list/object, wrong types, negative, 2^64, 2^64-1, -2^63, float, list of null, nested null), ids recomputed in 4 cases of 5 so the message passes integrity checks, and fed to the real validator handlers, to a sync round, and to the access-node controllers (as validator answers and as request bodies); after each message the operations that later touch stored data run (production, admission, queries); fixed probes null, {}, [], \"\", 0 on every endpoint. The chain and faults suites add multi-step histories (re-spends of partially spent transactions, candidates broken at any position): a panic anywhere ends the harness process and is reported with the input being tried. distinct by (target, position, fault kind)",
+        "rule": "crash suite: a valid transaction request, a valid chain (as a neighbor's sync answer) and a validator's utxo answer are mutated at every schema position with 14 fault kinds (null, absent, empty list/object, wrong types, negative, 2^64, 2^64-1, -2^63, float, list of null, nested null), ids recomputed in 4 cases of 5 so the message passes integrity checks, and fed to the real validator handlers, to a sync round, and to the access-node controllers (as validator answers and as request bodies); after each message the operations that later touch stored data run (production, admission, queries); fixed probes null, {}, [], \"\", 0 on every endpoint. The chain and faults suites add multi-step histories (re-spends of partially spent transactions, candidates broken at any position): a panic anywhere ends the harness process and is reported with the input being tried; extreme block heights (2^64-1, 2^63, ...) at the blocks endpoint; the net suite feeds malformed announced and broadcaster targets to the refresh loop of the neighborhood. distinct by (target, position, fault kind)",
         "trusted_base": ["Go's JSON lexer, golang-p2p framing and gin are not modelled; a panic inside gin-served handlers would be recovered in production (the harness calls the controllers directly and reports it)"],
         "assumptions": ["the blocks page size is a sane setting (page + chain length <= 2^64): otherwise Blocks panics on its slice bounds (C08)"],
     },
